@@ -6,7 +6,7 @@ QUICK = ["rust", "c", "moonbit"]
 MORE = ["cpp", "csharp", "go", "d"]
 
 CLAIM = dict(
-    level="proof", engine="synfacts+convsem", design="DESIGN.md §5 C14, §3 E4",
+    level="other", engine="synfacts+convsem", design="DESIGN.md §5 C14, §3 E4",
     technique="per backend, the string template each scalar instruction's `emit` arm pushes is extracted from the syntax "
               "tree, read with a per-language expression reader and evaluated by abstract interpretation over a "
               "bit-provenance domain (each result bit = 0, 1, OR of input bits, its negation, or unknown); the abstract "
@@ -16,7 +16,8 @@ CLAIM = dict(
          "bits with the type's own signedness on lifting over all 2^32 / 2^64 core inputs, bit-exact identity for 32/64-bit "
          "integers, floats and char, 0/1 and `!= 0` for bool), with the operand typed by the backend's own WIT->language "
          "table. Trusted: the per-language conversion table of lib/convsem.py, wasm32 data model, default (unchecked) C# "
-         "context, operands substituted as atoms.",
+         "context, operands substituted as atoms. Level `other` rather than `proof` because one obligation (Rust "
+         "BoolFromI32 on core values >= 256) is an open, listed finding; all others are discharged symbolically.",
     note="syn")
 
 NEEDED_AS = {"AsI32": ("i32", ["S32", "U32", "S16", "U16", "S8", "U8", "Char"]), "AsI64": ("i64", ["S64", "U64"]),
@@ -146,7 +147,7 @@ def rust_as_helpers(rep):
 
 def run(rep, tier):
     rep.describe(
-        "proof",
+        "other",
         "For each backend (rust, c, moonbit in the quick tier; plus cpp, csharp, go, d in the thorough tier) and each of the "
         "24 scalar instructions of abi::Instruction (12 lowerings, 12 liftings): (R14.1) `emit` has exactly one explicit, "
         "unguarded arm for it; (R14.2) the template that arm pushes — extracted from format!/push_str/closure code with "
